@@ -51,4 +51,17 @@ TEXT["C03"] = dict(
         "observed only. Known findings D2 (ratio limits reject own output) and D25 (PKWare output undecodable); one "
         "defect repaired (PKWare ASCII-mode panic)."),
   technique="Lean 4 proof (arithmetic closed form, decoder induction) + differential correspondence + round-trip oracle")
+TEXT["C08"] = dict(
+  text=("Machine-checked Lean 4 theorems: after every history of add / remove / set-priority / clear the chain is ordered "
+        "by (priority descending, insertion ascending) with fresh stamps (induction over histories); a lookup returns an "
+        "entry that contains the name and precedes every other entry containing it — highest priority wins, earliest added "
+        "wins ties; not-found iff no archive lists the name; parallel construction is priority-ordered; whatever "
+        "apply_patch returns matches both declared digests and the declared size for COPY and BSD0 (every control triple "
+        "bound-checked), and the RLE stage yields exactly the declared length. Tied to the code by stateful differential "
+        "execution of histories (order and winner after every step), of patch parsing/application outcomes on well-formed "
+        "and altered patches, and by a property oracle with independent bookkeeping."),
+  note=("MD5 abstract in theorems; listing-based containment; patch entries inside chains not generated (builder cannot "
+        "emit them); tie is sampling. Observation (not a violation): BSD0 backward seeks saturate to 0 instead of "
+        "StormLib's sign-magnitude meaning, so such patches end in an MD5 error."),
+  technique="Lean 4 proof (invariant by induction over operation histories, refinement to first-match lookup) + stateful differential correspondence")
 NA = {}
